@@ -21,6 +21,7 @@ mod c01cli;
 mod c16;
 mod c18;
 mod c06;
+mod c10;
 
 use std::path::PathBuf;
 
@@ -64,6 +65,7 @@ fn main() {
     "c16" => c16::run(&o),
     "c18" => c18::run(&o),
     "c06" => c06::run(&o),
+    "c10" => c10::run(&o),
     "c05" => c05::run_stream(&o, "c05"),
     "c04" => c05::run_stream(&o, "c04"),
     s => { eprintln!("unknown stream {s}"); std::process::exit(2); }
